@@ -76,7 +76,19 @@ def variant(rng, j, expanded):
 
 def boundary_pokes(rng):
     from checks import alu_common
-    pokes = ["interp poke %s %x" % (f, alu_common.acc(rng)) for f in ("a0", "a1", "b0", "b1")]
+    vals = {f: alu_common.acc(rng) for f in ("a0", "a1", "b0", "b1")}
+    if rng.chance(1, 3):
+        # equal operands: comparisons, min/max and subtractions decide at a0 == a1 (2^-40 under independent draws)
+        k = rng.below(4)
+        if k == 0:
+            vals["a1"] = vals["a0"]
+        elif k == 1:
+            vals["b0"] = vals["a0"]; vals["b1"] = vals["a1"]
+        elif k == 2:
+            vals["a1"] = vals["a0"]; vals["b0"] = vals["a0"]; vals["b1"] = vals["a0"]
+        else:
+            vals["a1"] = (vals["a0"] + rng.choice([1, -1])) & 0xFFFFFFFFFFFFFFFF
+    pokes = ["interp poke %s %x" % (f, vals[f]) for f in ("a0", "a1", "b0", "b1")]
     if rng.chance(1, 2):
         # same-sign products of graded size, no product shift: base +/- p0 -/+ p1 overflows twice
         sign = rng.below(2)
